@@ -12,6 +12,7 @@ unsigned g_rts, g_rbs, g_rq, g_rek, g_rw;
 u64 g_lv, g_rv;                               /* value when EK_CONST */
 struct expr *g_l, *g_r;                       /* the operand objects */
 struct type *g_lt, *g_rt;                     /* their types before the call */
+bool g_compat;                                /* == spec_bscompat(g_lbs, g_rbs): referenced types compatible (6.2.7) */
 int g_lkind, g_rkind;                         /* their kinds before the call */
 
 #define L_INT    TS_ISINT(g_lts)
@@ -37,13 +38,13 @@ int g_lkind, g_rkind;                         /* their kinds before the call */
                        (L_PTR && BS_COMPLETEOBJ(g_lbs) && R_INT) || \
                        (R_PTR && BS_COMPLETEOBJ(g_rbs) && L_INT))                      /* 6.5.6p2 */
 #define LEGAL_SUB     (BOTH_ARITH || \
-                       (L_PTR && R_PTR && BS_COMPLETEOBJ(g_lbs) && BS_COMPLETEOBJ(g_rbs) && spec_bscompat(g_lbs, g_rbs)) || \
+                       (L_PTR && R_PTR && BS_COMPLETEOBJ(g_lbs) && BS_COMPLETEOBJ(g_rbs) && g_compat) || \
                        (L_PTR && BS_COMPLETEOBJ(g_lbs) && R_INT))                      /* 6.5.6p3 */
 #define LEGAL_SHIFT   (L_INT && R_INT)                                                 /* 6.5.7p2 */
 #define LEGAL_REL     ((L_REAL && R_REAL) || \
-                       (L_PTR && R_PTR && !BS_ISFUNC(g_lbs) && !BS_ISFUNC(g_rbs) && spec_bscompat(g_lbs, g_rbs)))   /* 6.5.8p2 */
+                       (L_PTR && R_PTR && !BS_ISFUNC(g_lbs) && !BS_ISFUNC(g_rbs) && g_compat))   /* 6.5.8p2 */
 #define LEGAL_EQ      (BOTH_ARITH || \
-                       (L_PTR && R_PTR && spec_bscompat(g_lbs, g_rbs)) || \
+                       (L_PTR && R_PTR && g_compat) || \
                        (L_PTR && R_PTR && (g_lbs == BS_VOID && !BS_ISFUNC(g_rbs) || g_rbs == BS_VOID && !BS_ISFUNC(g_lbs))) || \
                        (L_PTR && R_NPC) || (R_PTR && L_NPC))                           /* 6.5.9p2 */
 #define LEGAL_BIT     (L_INT && R_INT)                                                 /* 6.5.10p2, 6.5.11p2, 6.5.12p2 */
@@ -91,6 +92,13 @@ int g_lkind, g_rkind;                         /* their kinds before the call */
 	X(IMP(g_lek == EK_CONST, g_l->u.constant.u == g_lv)) \
 	X(IMP(g_rek == EK_CONST, g_r->u.constant.u == g_rv))
 
+/* compile-time case split of the universe (keeps CBMC's points-to sets small); the two cases are exhaustive */
+#ifdef U_ARITH
+#define U_CASE (g_lts <= BS_ENB && g_rts <= BS_ENB)          /* both operands arithmetic */
+#else
+#define U_CASE (!(g_lts <= BS_ENB && g_rts <= BS_ENB))       /* at least one operand is not arithmetic */
+#endif
+
 /* harness inputs (every field is read with IN() in the unit file, so that counterexamples replay) */
 struct mkb_in {
 	bool signedchar; unsigned enAb, enBb;
@@ -110,8 +118,15 @@ mkb_build(const struct mkb_in *in, struct expr **pl, struct expr **pr)
 	build_universe(in->signedchar, in->enAb, in->enBb);
 	g_lts = in->lts; g_lbs = in->lbs; g_lq = in->lq; g_lek = in->lek; g_lv = in->lv;
 	g_rts = in->rts; g_rbs = in->rbs; g_rq = in->rq; g_rek = in->rek; g_rv = in->rv;
+#ifdef U_ARITH
+	/* variant "both operands arithmetic": only the 15 arithmetic type objects and the two enum types are in reach */
+	__CPROVER_assume(in->lts <= BS_ENB && in->rts <= BS_ENB);
+	g_lt = ty_arithenum[in->lts];
+	g_rt = ty_arithenum[in->rts];
+#else
 	g_lt = optype(in->lts, &ty_pl, in->lbs, in->lq);
 	g_rt = optype(in->rts, &ty_pr, in->rbs, in->rq);
+#endif
 	g_lw = in->lek == EK_BITFIELD ? in->lw : SPEC_NOBF;
 	g_rw = in->rek == EK_BITFIELD ? in->rw : SPEC_NOBF;
 	lbits = 8 * (unsigned)g_lt->size;
